@@ -96,8 +96,12 @@ ToyObs(st) ==
 \* ---------------------------------------------------------------- shared step shapes
 \* object i moves to abstract state st2 and now reports o2; fresh = the observation is the
 \* one of a discretisation computed from st2
+\* nsO / nsN: the namespace under which the object, respectively its nested component, knows the
+\* parameters (compounds forward parameter changes to the nested distribution by name)
 Apply(i, st2, o2, fresh) ==
-  objs' = [objs EXCEPT ![i] = [st |-> st2, src |-> IF fresh THEN st2 ELSE (IF objs[i] = None THEN Stale ELSE objs[i].src), o |-> o2]]
+  objs' = [objs EXCEPT ![i] = [st |-> st2, src |-> IF fresh THEN st2 ELSE (IF objs[i] = None THEN Stale ELSE objs[i].src), o |-> o2,
+                               nsO |-> IF objs[i] = None THEN 0 ELSE objs[i].nsO,
+                               nsN |-> IF objs[i] = None THEN 0 ELSE objs[i].nsN]]
 
 \* The design model stores the observation as a thunk [toy |-> st] (the toy discretisation of
 \* st, expanded only where an invariant looks at it); the trace stores the logged record.
@@ -126,7 +130,10 @@ SetParam(i, v) ==
   /\ objs[i] # None
   /\ LET st2 == [objs[i].st EXCEPT !.par = v] IN
        IF v < PMax /\ Regular(st2)
-       THEN Recompute("SetParam", i, st2) /\ out' = "ok"
+       THEN /\ IF objs[i].nsN = objs[i].nsO
+               THEN Recompute("SetParam", i, st2)
+               ELSE Apply(i, st2, objs[i].o, FALSE)          \* the change never reaches the nested distribution
+            /\ out' = "ok"
        ELSE Refused(i, objs[i].o) /\ out' = "raise"          \* refused by the constraint
 
 SetN(i, n) ==
@@ -144,6 +151,13 @@ Restrict(i, lo, hi) ==
        IF Regular(st2)
        THEN Recompute("Restrict", i, st2) /\ out' = "ok"
        ELSE Refused(i, objs[i].o) /\ out' = "raise"
+
+\* setNamespace: the object and its nested component are renamed together; the classes do not move.
+\* (Forget = "Rename": the nested component receives the PREVIOUS namespace - one rename behind.)
+Rename(i, v) ==
+  /\ objs[i] # None
+  /\ objs' = [objs EXCEPT ![i].nsO = v, ![i].nsN = IF Forget = "Rename" THEN objs[i].nsO ELSE v]
+  /\ out' = "ok"
 
 \* copy construction / assignment: j becomes a second object in the abstract state of i
 Copy(i, j) ==
@@ -163,6 +177,7 @@ Next == \E i \in Objs :
           \/ \E m \in BOOLEAN : SetMedian(i, m)
           \/ \E lo \in 0..G, hi \in 0..G : lo < hi /\ Restrict(i, lo, hi)
           \/ \E j \in Objs : Copy(i, j)
+          \/ \E v \in 0..1 : Rename(i, v)
 
 Spec == Init /\ [][Next]_vars
 Sym == Permutations(Objs)      \* the object identifiers are interchangeable (design model only)
